@@ -243,6 +243,23 @@ class GHolder[T](State):
     x: T
 
 
+class GInner[T](State):
+    x: T
+
+
+class GOuter[T](State):
+    inner: GInner[T]        # the nested annotation is parametrised by the OWNER's type variable
+
+
+def make_generic_nested(a):
+    """(GOuter[annotation], GInner[annotation]) - whatever the annotation is, also None"""
+    key = ("generic-nested", repr(a))
+    if key not in _CLS:
+        py = ann_to_py(a)
+        _CLS[key] = (GOuter[py], GInner[py])
+    return _CLS[key]
+
+
 def make_generic(a):
     """the holder as a specialisation GHolder[annotation]: exercises generic parameter resolution and the cache of
     specialised classes (kept alive here, as application code keeps its classes alive)"""
